@@ -3,6 +3,7 @@
 package datagen
 
 import (
+	"math"
 	"sort"
 	"time"
 
@@ -217,6 +218,12 @@ func drawValue(t *rapid.T, f Field, label string) (string, bool) {
 		if f.Type != "str" && f.Type != "bool" {
 			return rapid.SampledFrom(junkPool).Draw(t, label+"-junk"), true
 		}
+	case 2:
+		// texts that convert to the special floats: NaN fails every ordered comparison, the
+		// infinities are beyond every number
+		if (f.Type == "int" || f.Type == "float") && rapid.IntRange(0, 2).Draw(t, label+"-special") == 0 {
+			return rapid.SampledFrom([]string{"NaN", "nan", "+Inf", "-Inf", "Inf", "1e400", "-1e400"}).Draw(t, label+"-specialval"), true
+		}
 	}
 	return rapid.SampledFrom(f.Pool).Draw(t, label+"-val"), true
 }
@@ -430,7 +437,12 @@ func GenRecs(t *rapid.T, s Schema, maxN int, distinctTS bool) []model.Rec {
 	return recs
 }
 
+// numValue tells whether s can be written as a JSON number (NaN and the infinities convert
+// to floats but are not JSON numbers: they stay strings).
 func numValue(s string) (float64, bool) {
 	f, err := parseFloat(s)
-	return f, err == nil
+	if err != nil || math.IsNaN(f) || math.IsInf(f, 0) {
+		return f, false
+	}
+	return f, true
 }
